@@ -4045,7 +4045,20 @@ class Phonopy:
         )
         # DynamialMatrix instance transforms force constants in correct
         # type of numpy array.
-        self._force_constants = self._dynamical_matrix.force_constants
+        if self._frequency_scale_factor is None:
+            self._force_constants = self._dynamical_matrix.force_constants
+        else:
+            # The instance holds the scaled force constants. They must not
+            # replace the unscaled ones (they would be scaled again at the
+            # next rebuild), which are only brought to the same array type.
+            fc = self._force_constants
+            if not (
+                isinstance(fc, np.ndarray)
+                and fc.dtype == np.dtype("double")
+                and fc.flags.owndata
+                and fc.flags.c_contiguous
+            ):
+                self._force_constants = np.array(fc, dtype="double", order="C")
 
         if self._group_velocity is not None:
             self._set_group_velocity()
